@@ -4,7 +4,7 @@ import Posmint.Lemmas.Arith
 Helper lemmas for C07 (slashing): sorted association lists, the bank primitives, field-projection
 lemmas of the staking primitives, and an exact description of `slash` / `forceUnstake`.
 -/
-namespace Posmint.Chain
+namespace Posmint.Chain.C
 open Posmint.Arith
 
 /-! ### sorted association lists -/
@@ -513,4 +513,4 @@ theorem jail_or_id (s1 s2 : State) (a : Addr) (c : Bool) (v1 : Val)
     · intro b hb; rw [hvals, aget_aset_ne _ _ _ _ (fun e => hb e.symm)]
     · rw [hvals, aget_aset_self]
 
-end Posmint.Chain
+end Posmint.Chain.C
